@@ -29,20 +29,20 @@ Section Expand.
               /\ c <> "j"%char /\ ends_with "log" s = false.
 
   (* [reads toks es]: the tokens spell the entries (case-insensitively); a
-     number is a token Python's float() accepts *)
+     number is a token datacard.to_float accepts (float(), or a Fortran spelling) *)
   Inductive reads : list string -> list (entry (T:=T)) -> Prop :=
   | reads_nil : reads [] []
   | reads_val t x ts es :
-      fl P (lower t) = Some x -> plain (lower t) -> reads ts es ->
+      tf P (lower t) = Some x -> plain (lower t) -> reads ts es ->
       reads (t :: ts) (EVal x :: es)
   | reads_rep t body n ts es :
       lower t = (body ++ "r")%string -> count_of body n -> reads ts es ->
       reads (t :: ts) (ERep n :: es)
   | reads_int t body n u b ts es :
-      lower t = (body ++ "i")%string -> count_of body n -> fl P (lower u) = Some b -> reads ts es ->
+      lower t = (body ++ "i")%string -> count_of body n -> tf P (lower u) = Some b -> reads ts es ->
       reads (t :: u :: ts) (EInt n b :: es)
   | reads_mul t body x ts es :
-      lower t = (body ++ "m")%string -> body <> "" -> fl P body = Some x -> reads ts es ->
+      lower t = (body ++ "m")%string -> body <> "" -> tf P body = Some x -> reads ts es ->
       reads (t :: ts) (EMul x :: es)
   | reads_jump t body n ts es :
       lower t = (body ++ "j")%string -> count_of body n -> reads ts es ->
@@ -61,7 +61,7 @@ Section Expand.
 
   (* ---------- one step of the loop, per kind of entry ---------- *)
   Lemma step_val s x rest acc :
-    fl P s = Some x -> plain s -> expand_step Sc P s rest acc = Ok (Some x :: acc, O).
+    tf P s = Some x -> plain s -> expand_step Sc P s rest acc = Ok (Some x :: acc, O).
   Proof.
     intros Hfl (c & Hl & Hr & Hi & Hm & Hj & Hlog).
     unfold expand_step. rewrite Hl. cbn [char_is].
@@ -95,7 +95,7 @@ Section Expand.
   Qed.
 
   Lemma step_mul body x rest a acc :
-    body <> "" -> fl P body = Some x ->
+    body <> "" -> tf P body = Some x ->
     expand_step Sc P (body ++ "m")%string rest (Some a :: acc) = Ok (Some (smul Sc a x) :: Some a :: acc, O).
   Proof.
     intros Hne Hfl. unfold expand_step. rewrite last_char_app, but_last_app.
@@ -110,7 +110,7 @@ Section Expand.
   Proof. unfold zrange. rewrite Nat2Z.id. reflexivity. Qed.
 
   Lemma step_int body n u b rest a acc :
-    count_of body n -> fl P (lower u) = Some b ->
+    count_of body n -> tf P (lower u) = Some b ->
     expand_step Sc P (body ++ "i")%string (u :: rest) (Some a :: acc) =
     Ok (Some b :: rev (map Some (interpolates Sc a b n)) ++ Some a :: acc, 1%nat).
   Proof.
